@@ -543,13 +543,17 @@ fn enumerate(n: u8, max_len: usize) -> Vec<Case> {
 
 pub fn check(ctx: &Ctx) -> Vec<PartReport> {
     let mut out = Vec::new();
-    let (n_enum, len_enum) = ctx.tier.pick((2u8, 2usize), (2u8, 3usize));
-    let cases = enumerate(n_enum, len_enum);
+    let (n_enum, len_enum) = ctx.tier.pick((2u8, 3usize), (2u8, 4usize));
+    let mut cases = enumerate(n_enum, len_enum);
+    if ctx.tier == crate::engine::Tier::Thorough {
+        // three role keys, thresholds 1..3, lists up to length 3
+        cases.extend(enumerate(3, 3));
+    }
     out.push(run_part(
         ctx,
         PartSpec {
             name: "lists-exhaustive",
-            rule: "EXHAUSTIVE: at each of the 8 verification sites, 2 ed25519 role keys, thresholds 1 and 2, every signature list of length <=2 (quick) / <=3 (thorough) over {valid by k, valid by k with upper-case key id, corrupted by k, valid over other content by k (k=0,1), key of another role, unknown key, key id listed but key missing from the table}; each case is a forged repository loaded through RepositoryLoader::load and the parsed documents passed to verify_role. Non-trivial: threshold >=2 or any entry other than a plain valid signature; distinct = (site, n, threshold, multiset of kinds)",
+            rule: "EXHAUSTIVE: at each of the 8 verification sites, 2 ed25519 role keys, thresholds 1 and 2, every signature list of length <=3 (quick) / <=4 (thorough; plus 3 keys, thresholds 1..3, lists <=3) over {valid by k, valid by k with upper-case key id, corrupted by k, valid over other content by k (k=0,1), key of another role, unknown key, key id listed but key missing from the table}; each case is a forged repository loaded through RepositoryLoader::load and the parsed documents passed to verify_role. Non-trivial: threshold >=2 or any entry other than a plain valid signature; distinct = (site, n, threshold, multiset of kinds)",
             mode: Mode::Enumerate { cases, complete: true },
             prop: Box::new(prop),
             require: vec![],
